@@ -216,6 +216,12 @@ impl Engine for C17 {
                     r.id = format!("p{}_{}", i, r.id);
                 }
                 c2 = gen_container(rng, &r2, false, true);
+                // the ceiling was drawn for the shorter input: redraw it, or the
+                // sizing rule asks for thousands of partitions
+                let total2: u64 = r2.iter().map(|r| r.seq.len() as u64).sum();
+                let lo = (total2 / 12).max(1);
+                let limit = if rng.chance(1, 2) { 750_000_000 } else { rng.range(lo, total2.max(lo)) };
+                p2.insert("gb".into(), serde_json::json!(CountCfg::gb_for_limit(limit)));
             }
             p2.insert("sub".into(), serde_json::json!(psub));
             // fault: the earlier run is cut short at a seeded hook event
